@@ -168,6 +168,15 @@ func (v *walVocab) call(cx *Ctx, ci ssa.CallInstruction) CallInfo {
 		if v.isTxnSig(sig) {
 			return CallInfo{Event: "TXN"}
 		}
+		if cx.E != nil && cx.F != nil {
+			// the transaction's results keep their role wherever they are passed (helpers, struct fields)
+			switch cx.Eval(cc.Value, cx.F).Tag {
+			case "~postcommit":
+				return CallInfo{Event: "POSTCOMMIT"}
+			case "~finalizer":
+				return CallInfo{Event: "FINCALL"}
+			}
+		}
 		if ex, ok := cc.Value.(*ssa.Extract); ok {
 			if c, ok := ex.Tuple.(*ssa.Call); ok && v.isTxnSig(c.Call.Signature()) {
 				switch ex.Index {
@@ -255,9 +264,38 @@ func (v *walVocab) closedObs(ifi *ssa.If, truth bool) string {
 	return "closed"
 }
 
+// value tags the results of a transaction body with their role.
+func (v *walVocab) value(cx *Ctx, val ssa.Value, f *Fact) (AV, bool) {
+	c, ok := val.(*ssa.Call)
+	if !ok || c.Call.IsInvoke() || c.Call.StaticCallee() != nil || !v.isTxnSig(c.Call.Signature()) {
+		return AV{}, false
+	}
+	a := cx.Eval(val, f)
+	t := AV{K: avTuple, Tup: make([]AV, 3)}
+	if a.K == avTuple {
+		copy(t.Tup, a.Tup)
+	}
+	t.Tup[0].Tag = "~finalizer"
+	t.Tup[1].Tag = "~postcommit"
+	return t, true
+}
+
+// isPostCommit: does val denote the post-commit step returned by the transaction body?
+func (v *walVocab) isPostCommit(cx *Ctx, val ssa.Value, f *Fact) bool {
+	if cx.E != nil && f != nil && cx.Eval(val, f).Tag == "~postcommit" {
+		return true
+	}
+	ex, ok := val.(*ssa.Extract)
+	if !ok || ex.Index != 1 {
+		return false
+	}
+	c, ok := ex.Tuple.(*ssa.Call)
+	return ok && v.isTxnSig(c.Call.Signature())
+}
+
 // baseSpec wires the vocabulary into an OrdSpec; rules add their own callbacks.
 func (v *walVocab) baseSpec(name string) *OrdSpec {
-	return &OrdSpec{Name: name, Call: v.call, Instr: v.instr}
+	return &OrdSpec{Name: name, Call: v.call, Instr: v.instr, Value: v.value}
 }
 
 // apiMethods returns the methods of *WAL that implement raft.LogStore / raft.StableStore.
